@@ -25,7 +25,8 @@ if with_locations:
     extra["locations"] = [LocationConfig(prefix="/docs/", handler_type=HandlerType.STATIC, document_root=Path(root))]
 cfg = ServerConfig(host="127.0.0.1", port=int(port), document_root=Path(root), certfile=Path(cert), keyfile=Path(key),
                    enable_rate_limiting=False, enable_access_control=False, require_client_cert=(reqcert == "1"), **extra)
-asyncio.run(start_server(cfg, enable_rate_limiting=False, log_level="ERROR"))
+# INFO: the request log (and whatever processes its fields) is part of the path of every response
+asyncio.run(start_server(cfg, enable_rate_limiting=(os.environ.get("NV_LIVE_RATE_LIMIT") == "1"), log_level="INFO"))
 '''
 
 def free_port():
@@ -48,11 +49,12 @@ class Server:
         env = dict(os.environ)
         self.p = subprocess.Popen([PY, "-c", SERVER_SCRIPT, os.path.join(tmp, "capsule"), c, k, str(self.port), str(shutdown_patch),
                                    "1" if backend == "pyopenssl" else "0"] + (["locations"] if locations else []),
-                                  env=env, stdout=subprocess.DEVNULL, stderr=subprocess.PIPE)
+                                  env=env, stdout=subprocess.DEVNULL, stderr=open(os.path.join(tmp, "server-%d.err" % self.port), "wb"))
+        self.errfile = os.path.join(tmp, "server-%d.err" % self.port)
         deadline = time.time() + 20
         while time.time() < deadline:
             if self.p.poll() is not None:
-                raise RuntimeError("live server exited: " + self.p.stderr.read().decode(errors="replace")[-800:])
+                raise RuntimeError("live server exited: " + open(self.errfile, "rb").read().decode(errors="replace")[-800:])
             try:
                 socket.create_connection(("127.0.0.1", self.port), timeout=0.5).close(); return
             except OSError:
@@ -111,8 +113,11 @@ def run_whole_responses(res, tier, pid="C01"):
         for backend in ("stdlib", "pyopenssl"):
             srv = Server(tmp, backend, 0.0)
             try:
-                runs = [("/big.txt", b"20 text/plain\r\n" + body, 1.0), ("/small.gmi", b"20 text/gemini\r\n# small\n", 0.0),
-                        ("/missing", None, 0.0)]
+                small = b"20 text/gemini\r\n# small\n"
+                runs = [("/big.txt", b"20 text/plain\r\n" + body, 1.0), ("/small.gmi", small, 0.0), ("/missing", None, 0.0),
+                        # queries are opaque to the server: several "?", "%3F", "&", "=" and an empty one
+                        ("/small.gmi?a?b", small, 0.0), ("/small.gmi?what?", small, 0.0), ("/small.gmi?a=1?b=2?", small, 0.0),
+                        ("/small.gmi?q=a&b=c%3F", small, 0.0), ("/small.gmi?", small, 0.0)]
                 for path, expected, stall in runs:
                     got, ended = fetch(srv.port, path, stall)
                     res.evaluations += 1; res.count("live-" + backend)
@@ -231,5 +236,48 @@ def run_unusable_certificate(res, tier):
                                        "signature": "C20:plaintext-listener-%s" % backend,
                                        "case": {"backend": backend, "certificate": "key of another certificate"},
                                        "trace": {"plaintext_request_answered_with": answer[:60].decode("latin-1")}})
+    finally:
+        shutil.rmtree(tmp, ignore_errors=True)
+
+def run_cli_policies(res, tier):
+    """the command line (`python -m nauyaca serve --config file.toml`) with access-control sections: what the file says is what
+    the running server enforces for a request from 127.0.0.1 - including the policy that lists nobody and denies by default"""
+    tmp = scratch_dir("nv-live4-")
+    try:
+        cases = [("default-deny-only", "default_allow = false", b"53"),
+                 ("allow-loopback", 'allow_list = ["127.0.0.1"]\ndefault_allow = false', b"20"),
+                 ("deny-loopback", 'deny_list = ["127.0.0.0/8"]\ndefault_allow = true', b"53"),
+                 ("deny-other", 'deny_list = ["192.0.2.0/24"]\ndefault_allow = true', b"20")]
+        env = {k: v for k, v in os.environ.items() if not k.startswith("NAUYACA_")}
+        env["PYTHONPATH"] = os.path.join(os.environ.get("NV_REPO", "/repo"), "src")
+        for name, section, want in cases:
+            root = os.path.join(tmp, name + "-root"); os.makedirs(root)
+            open(os.path.join(root, "index.gmi"), "wb").write(b"# capsule\n")
+            port = free_port()
+            cfg = os.path.join(tmp, name + ".toml")
+            open(cfg, "w").write('[server]\nhost = "127.0.0.1"\nport = %d\ndocument_root = "%s"\n\n[access_control]\n%s\n' % (port, root, section))
+            log = open(os.path.join(tmp, name + ".log"), "wb")
+            p = subprocess.Popen([PY, "-m", "nauyaca", "serve", "--config", cfg], stdout=log, stderr=subprocess.STDOUT, env=env, cwd=tmp)
+            got, ended = b"", "server did not start"
+            try:
+                deadline = time.time() + 30
+                up = False
+                while time.time() < deadline and p.poll() is None:
+                    try:
+                        socket.create_connection(("127.0.0.1", port), timeout=0.5).close(); up = True; break
+                    except OSError:
+                        time.sleep(0.1)
+                if up:
+                    got, ended = fetch(port, "/", 0.0, timeout=10)
+            finally:
+                p.terminate()
+                try: p.wait(timeout=10)
+                except subprocess.TimeoutExpired: p.kill(); p.wait()
+                log.close()
+            res.evaluations += 1; res.count("live-cli-policy"); res.nontriv(("live-cli", name))
+            if not got.startswith(want + b" "):
+                res.violations.append({"clause": "the access policy written in the configuration file is the one the CLI-started server enforces",
+                                       "signature": "C09:cli-" + name, "case": {"access_control_section": section, "peer": "127.0.0.1"},
+                                       "trace": {"expected_status": want.decode(), "received": got[:60].decode("latin-1"), "ended": ended}})
     finally:
         shutil.rmtree(tmp, ignore_errors=True)
